@@ -148,7 +148,7 @@ def run_h11(case, wire, cuts, trunc, method, mode="sync"):
     return ob, out
 
 
-def h2_case_and_run(ni, status, method, n, frames, hshape, cuts_fn, trunc_mode, rng, trunc_at=None):
+def h2_case_and_run(ni, status, method, n, frames, hshape, cuts_fn, trunc_mode, rng, trunc_at=None, rst_code=2):
     """HTTP/2: the server's whole byte stream (SETTINGS, ACK, response frames) is one blob emitted
     when the request is complete.  Two passes: the first learns the layout (deterministic), the
     second applies cuts / truncation."""
@@ -164,6 +164,7 @@ def h2_case_and_run(ni, status, method, n, frames, hshape, cuts_fn, trunc_mode, 
     spec = {"status": status, "headers": headers, "body": body if on_wire else b"", "frames": list(frames) if on_wire else [], "interim": interim}
     if trunc_mode == "rst":
         spec["rst_after"] = trunc_at
+        spec["rst_code"] = rst_code
     layout = {}
 
     def run(cuts, trunc):
